@@ -105,32 +105,14 @@ theorem minimize_ok {l : List (Bytes × Pos)} (h : ∀ t ∈ l, t.2.1 = 0 ∨ t.
     rw [hps]; exact ⟨_, rfl⟩)
   rw [hls]; exact ⟨_, rfl⟩
 
-theorem createPositionsAndKmers_ok (adapter : Bytes) (mo : Nat) (thr : Nat → Nat) (b f i : Bool) :
-    ∃ entries, createPositionsAndKmers adapter mo thr b f i = .ok entries := by
-  have hsets : ∀ s ∈ searchSets adapter mo thr b f i, s.start = 0 ∨ s.stop = none := by
+theorem createPositionsAndKmers_ok (adapter : Bytes) (mo : Nat) (thr : Nat → Nat) (b f i ind : Bool) :
+    ∃ entries, createPositionsAndKmers adapter mo thr b f i ind = .ok entries := by
+  have hsets : ∀ s ∈ searchSets adapter mo thr b f i ind, s.start = 0 ∨ s.stop = none := by
     intro s hs
     simp only [searchSets, List.mem_append] at hs
     rcases hs with (hs | hs) | hs
     · split at hs
-      · right
-        have := foldl_inv (P := fun st : Nat × List SearchSet => ∀ s ∈ st.2, s.stop = none)
-          (backStep adapter) (errorLengths thr adapter.length) (mo, []) (by simp)
-          (by
-            rintro ⟨ml, sets⟩ ⟨me, len⟩ h2
-            simp only [backStep]
-            split
-            · exact h2
-            · intro s hs
-              rcases List.mem_append.mp hs with hs | hs
-              · split at hs
-                · rcases List.mem_append.mp hs with hs | hs
-                  · exact h2 s hs
-                  · simp only [List.mem_map] at hs
-                    obtain ⟨i, _, rfl⟩ := hs
-                    rfl
-                · exact h2 s hs
-              · simp at hs; subst hs; rfl)
-        exact this s hs
+      · right; exact backSets_stop adapter mo thr ind s hs
       · simp at hs
     · split at hs
       · simp only [List.mem_map] at hs
@@ -141,7 +123,7 @@ theorem createPositionsAndKmers_ok (adapter : Bytes) (mo : Nat) (thr : Nat → N
       · simp at hs; subst hs; left; rfl
       · simp at hs
   dsimp only [createPositionsAndKmers, removeRedundantKmers]
-  obtain ⟨r, hr⟩ := minimize_ok (l := (searchSets adapter mo thr b f i).flatMap
+  obtain ⟨r, hr⟩ := minimize_ok (l := (searchSets adapter mo thr b f i ind).flatMap
       (fun s => s.kmers.map (fun k => (k, (s.start, s.stop))))) (by
     intro t ht
     simp only [List.mem_flatMap, List.mem_map] at ht
